@@ -210,6 +210,8 @@ class Verifier:
             else:
                 ty = self.fe.parse_type(texpr, mi)
             fr.vars[p.arg] = symbolic_value(eng, st, p.arg, ty)
+            if isinstance(fr.vars[p.arg], sym.SOpaque) and not fr.vars[p.arg].label:
+                fr.vars[p.arg].label = p.arg  # a call of an opaque parameter (a callback) is logged under the parameter's name
         if a.vararg is not None:
             ty = self.fe.parse_type(c.types.get(a.vararg.arg), mi) if a.vararg.arg in c.types else sym.TList(ANY)
             fr.vars[a.vararg.arg] = symbolic_value(eng, st, a.vararg.arg, ty)
